@@ -108,7 +108,7 @@ def verif_corpus_cases(root):
 def input_hash(case):
     h = hashlib.sha256()
     for f in sorted(os.listdir(case["in"])):
-        h.update(f.encode())
+        h.update(os.fsencode(f))
         h.update(open(os.path.join(case["in"], f), "rb").read())
     h.update(case["start"].encode())
     return h.hexdigest()[:16]
